@@ -987,6 +987,25 @@ pub fn c08(tier: Tier) -> i32 {
             }
         }
     }
+    // another contract with a constructor of its own (and no write to s0) before / after the holder
+    for (hn, decl) in &holders {
+        let d = toks_of(decl);
+        for other in ["contract First { uint256 other1 ; constructor ( ) { other1 = 1 ; } }", "contract First { constructor ( ) { } function g ( ) external { } }", "abstract contract First { address other2 ; constructor ( address a ) { other2 = a ; } }"] {
+            for before in [true, false] {
+                let mut v = toks_of("pragma solidity 0.8.19 ;");
+                if before {
+                    v.extend(toks_of(other));
+                }
+                v.extend(toks_of("contract H {"));
+                v.extend(d.clone());
+                v.push("}".into());
+                if !before {
+                    v.extend(toks_of(other));
+                }
+                items.push(l1_item(format!("two-constructors:{}:{}:{}", hn, &other[..24], before), &v));
+            }
+        }
+    }
     // the quantifier excludes files in which the state-variable name is declared twice
     let keep = util::par_map(items.len(), |i| refdet::unique_state_var_names(&items[i].1));
     let items: Vec<_> = items.into_iter().zip(keep).filter(|(_, k)| *k).map(|(x, _)| x).collect();
@@ -995,6 +1014,23 @@ pub fn c08(tier: Tier) -> i32 {
     let sample1 = json!({"label": items[items.len() / 2].0, "text": items[items.len() / 2].1});
     absorb(&mut run, sw, "write-sites");
 
+    // ---- histories: files analysed one after the other on one thread; names declared in an earlier file
+    //      (a base contract) must not turn assignments to locals / return variables of a later file into
+    //      state-variable writes, in either order
+    {
+        let base = toks_of("pragma solidity 0.8.19 ; contract Base { uint256 fee ; address owner ; uint256 s0 ; function setFee ( uint256 f ) external { fee = f ; } }");
+        let later = toks_of("pragma solidity 0.8.19 ; contract Vault is Base { uint256 shares ; function mint ( uint256 n ) external { shares = n ; } } contract Quoter { function quote ( uint256 a ) external returns ( uint256 fee ) { fee = a / 100 ; address owner ; owner = msg . sender ; uint256 s0 ; s0 = a ; } }");
+        let plain = toks_of("pragma solidity 0.8.19 ; contract Plain { uint256 kept ; constructor ( ) { kept = 1 ; } }");
+        let a = l1_item("history:Base".into(), &base);
+        let b = l1_item("history:Vault+Quoter".into(), &later);
+        let c = l1_item("history:Plain".into(), &plain);
+        for seq in [vec![a.clone(), b.clone()], vec![b.clone(), a.clone()], vec![a.clone(), c.clone(), b.clone()], vec![b.clone(), b.clone()], vec![c.clone(), a.clone(), b.clone(), a.clone()]] {
+            let (hv, hc) = refdet::sequence_check(&seq, &state_dets, Mode::Semantic);
+            run.merge_violations(hv);
+            run.add("transitions", hc);
+            run.add("states", seq.len() as u64);
+        }
+    }
     // ---- two write sites (thorough): one canonical position x every position of a sub-alphabet
     if tier == Tier::Thorough {
         let forms2 = write_forms("s0", false);
